@@ -130,6 +130,8 @@ def features(c):
             f.add("kids")
         elif k == "isa":
             f.add("p2")
+        elif k == "pred":
+            f.add("pred")
         elif k in ("and", "or"):
             walk(c[1]); walk(c[2])
         elif k == "not":
